@@ -38,7 +38,7 @@ CONSTS = {
     ),
     "thorough": (
         dict(NSyms=3, MaxLen=3, MaxUses=2, MaxGuards=1, WithODE="TRUE", MaxFeat=5, MaxAdm=5, MinEmit=1, MaxRmSet=2, SampleMod=8, Thin=1, FullDepth=0),
-        dict(NSyms=4, MaxLen=8, MaxUses=2, MaxGuards=3, WithODE="TRUE", MaxFeat=12, MaxAdm=5, MinEmit=6, MaxRmSet=1, SampleMod=6, Thin=64, FullDepth=1),
+        dict(NSyms=4, MaxLen=8, MaxUses=2, MaxGuards=3, WithODE="TRUE", MaxFeat=12, MaxAdm=5, MinEmit=6, MaxRmSet=1, SampleMod=6, Thin=96, FullDepth=1),
     ),
 }
 INVARIANTS = ["T0_Machine", "T1_FullExpr", "T2_DepSound", "T3_DepBounds", "T4_Remove", "T4b_FixedRemove", "T5_Reassign", "T6_Subs", "T7_Used", "EmitCase"]
